@@ -143,6 +143,7 @@ def build_lib(flavour, th):
     objs = {}
     with Lock(os.path.join(BUILD, "lock-lib-%s" % flavour)):
         os.makedirs(d, exist_ok=True)
+        os.utime(d, None)      # most recently used first when pruning
         jobs = []
         fl = FLAVOURS[flavour]
         inc = ["-I" + os.path.join(REPO, "include")]
@@ -169,7 +170,7 @@ def build_lib(flavour, th):
                         sys.stderr.write("BUILD FAILED: %s\n%s\n" % (" ".join(cmd), txt))
                         raise SystemExit(3)
                     os.replace(o + ".tmp", o)
-            prune_cache("lib-%s-" % flavour, 3)
+            prune_cache("lib-%s-" % flavour, 8)
     return objs
 
 def build_check(ck, th=None):
